@@ -13,7 +13,7 @@ units = [u for u in vx.all_units() if not names or u.id in names]
 cases = []
 for u in units:
     for ex in u.extracts():
-        if ex.kw != 'fn':
+        if ex.kw != 'fn' or ex.file.startswith('registry:'):      # (the smawk source is not part of /repo)
             continue
         src = open(os.path.join('/repo', ex.file)).read()
         toks = vx.lex(src)
